@@ -374,6 +374,10 @@ func init() {
 		NotDecided:  []string{"numerical equality with a reference aggregator", "expression arithmetic and value coercions", "Sequence.UpdateValue offset arithmetic and Merge alignment (values)"},
 		Assumptions: []string{"go/ssa models control flow", "modsum external tables"},
 		Rules: []func(*Ctx){func(c *Ctx) { ruleC01a(c, "C01.a") }, func(c *Ctx) { ruleC01b(c, "C01.b") }, func(c *Ctx) { ruleC01c(c, "C01.c") }, func(c *Ctx) { ruleC01d(c, "C01.d") }, func(c *Ctx) { ruleC01f(c, "C01.f") }, func(c *Ctx) {
+			c.describe("C01.g", "= C10.c / C03.b: on a cluster a point is stored by the follower that owns it (same keys, same order on both sides); a sorted flush never reuses the read buffer for rows its sorter retains")
+			ruleC10c(c, "C01.g")
+			ruleC03b(c, "C01.g")
+		}, func(c *Ctx) {
 			c.describe("C01.e", "dom: a rejected entry still advances the offset (t.skip)")
 			ruleSkipOnReject(c, "C01.e")
 		}},
